@@ -119,6 +119,10 @@ fn generate(seed: u64, tier: Tier, em: &mut Emitter) {
     for (src, steps, parts, pat) in emptied_barrier_cases(tier != Tier::Quick) {
         emit_prog(em, &src, &steps, Mode::Par(parts), true, &["sweep", "emptied_partition", pat]);
     }
+    // TopK over shuffled / descending / zig-zag data: the merge's slow path (|acc| + |other| > k)
+    for (src, steps, parts) in topk_cases(&mut rng, tier != Tier::Quick) {
+        emit_prog(em, &src, &steps, Mode::Par(parts), true, &["sweep", "topk_non_monotone"]);
+    }
     // more than 64 effective partitions
     for (src, steps, parts) in many_partition_cases(tier != Tier::Quick) {
         if !steps.iter().any(|s| matches!(s, Step::Join(..))) {
@@ -126,7 +130,7 @@ fn generate(seed: u64, tier: Tier, em: &mut Emitter) {
         }
     }
     let mut rng = seed_mix(seed, 0xC05_0002);
-    let count = if tier == Tier::Quick { 600 } else { 7000 };
+    let count = if tier == Tier::Quick { 500 } else { 7000 };
     let mut made = 0;
     while made < count {
         let n = gen_len(&mut rng);
